@@ -28,6 +28,165 @@ Definition conf := (st * list nat * list nat * list report)%type.
 Definition poll_start (s : st) (p : pin) : st := set_evs (set_subs s (psubs p)) [].
 Definition conf0 (s : st) (p : pin) : conf := (poll_start s p, [], [], []).
 
+(** * Events of _execute_record *)
+Definition kind_of (r : bool) : kind := if r then Restart else Main.
+
+Lemma execute_record_evs c g x r s :
+  let s' := execute_record_gen c g x r s in
+  exists new, evs s' = new ++ evs s /\ (forall e, In e new -> sub_ev g x r e) /\
+    (dry c = true -> forall e, In e new -> e = EGen x) /\
+    (dry c = false -> 0 < attempts c -> exists res, In (ESubmit x (kind_of r) (scheduled (attr g x)) res) new) /\
+    (dry c = false -> 0 < attempts c -> In x (failed s') -> ~ In x (failed s) ->
+       In (ESubmit x (kind_of r) (scheduled (attr g x)) None) new).
+Proof.
+  cbv zeta. unfold execute_record_gen.
+  set (s1 := if negb r then emit (EGen x) s else s).
+  assert (E1 : evs s1 = (if negb r then [EGen x] else []) ++ evs s) by (subst s1; destruct (negb r); reflexivity).
+  assert (F1 : failed s1 = failed s) by (subst s1; destruct (negb r); reflexivity).
+  assert (N1 : forall e, In e (if negb r then [EGen x] else []) -> e = EGen x).
+  { intros e He. destruct (negb r); [destruct He as [<-|[]]; reflexivity|destruct He]. }
+  destruct (dry c).
+  - exists (if negb r then [EGen x] else []). splits; auto; try discriminate.
+    intros e He. left. auto.
+  - destruct (submit_attempts g x r (attempts c) s1) as [ok s2] eqn:E.
+    apply submit_attempts_spec in E. destruct E as [[SS _ _ _ _] _ _ (new & V1 & V2 & V3 & V4)].
+    destruct SS as (_ & _ & _ & S4 & _).
+    set (sf := if ok then _ else _).
+    assert (Ef : evs sf = evs s2 /\ (ok = true -> failed sf = failed s2)).
+    { subst sf. destruct ok.
+      - destruct (negb (scheduled (attr g x))); split; reflexivity.
+      - destruct (mfl_frame (bfs_subtree g x) (inprog_remove x s2)) as (_ & _ & _ & _ & _ & _ & M & _).
+        split; [exact M|discriminate]. }
+    destruct Ef as [Ef Ff].
+    exists (new ++ (if negb r then [EGen x] else [])). splits; try discriminate.
+    + rewrite Ef, V1, E1, app_assoc. reflexivity.
+    + intros e He. apply in_app_iff in He. destruct He as [He|He]; auto. left. auto.
+    + intros _ Ha. destruct (V3 Ha) as [res Hr]. exists res. apply in_app_iff. left. exact Hr.
+    + intros _ Ha Hf Hnf. destruct (V3 Ha) as [res Hr]. destruct ok.
+      * exfalso. apply Hnf. rewrite (Ff eq_refl), S4, F1 in Hf. exact Hf.
+      * rewrite (V4 eq_refl _ _ _ Hr) in Hr. apply in_app_iff. left. exact Hr.
+Qed.
+
+(** where the node ends up *)
+Lemma execute_record_where c g x r s :
+  let s' := execute_record_gen c g x r s in
+  In x (inprog s') \/ In x (completed s') \/ In x (failed s').
+Proof.
+  cbv zeta. unfold execute_record_gen.
+  set (s1 := if negb r then emit (EGen x) s else s).
+  destruct (dry c).
+  - right. left. unfold completed_add, rec_set_status. sp. apply In_sadd. auto.
+  - destruct (submit_attempts g x r (attempts c) s1) as [ok s2]. destruct ok.
+    + destruct (negb (scheduled (attr g x))).
+      * right. left. unfold inprog_remove, completed_add, rec_set_status, inprog_add. sp. apply In_sadd. auto.
+      * left. unfold inprog_add. sp. apply In_sadd. auto.
+    + right. right. apply mfl_failed. left. apply bfs_subtree_root.
+Qed.
+
+(** * Frame of the report dispatch: everything but the restart branch leaves
+      the event log and the restart counters alone *)
+Definition restart_branch (c : cfg) (g : graph) (t : st) (x : nat) (o : option State) : Prop :=
+  o = Some TIMEDOUT /\ has_restart (attr g x) = true /\ canceled t = false /\
+  ((rlimit (attr g x) =? 0) || (restarts (getrec t x) <? rlimit (attr g x))) = true.
+
+Lemma hr_frame c g t cl ca x o t' cl' ca' : x < length (recs t) ->
+  handle_report_gen c g (t, cl, ca) (x, o) = (t', cl', ca') ->
+  (evs t' = evs t /\ (forall y, restarts (getrec t' y) = restarts (getrec t y)) /\
+   (forall y, In y (failed t) -> In y (failed t')) /\ cancelled t' = cancelled t /\
+   (forall y, In y (completed t) -> In y (completed t')) /\
+   (forall y, In y (ready t') -> In y (ready t) \/ (y = x /\ o = Some HWFAILURE)) /\
+   (forall y, y <> x -> In y (inprog t) -> In y (inprog t')) /\
+   (forall y, In y cl -> y = x \/ In y cl') /\ (forall y, In y ca -> In y ca') /\
+   (o = Some TIMEDOUT -> In x (failed t') \/ In x cl')) \/
+  (restart_branch c g t x o /\ cl' = cl /\ ca' = ca /\
+   t' = execute_record_gen c g x true (rec_inc_restarts x (rec_set_status x TIMEDOUT t))).
+Proof.
+  intros Hl E. unfold handle_report_gen in E.
+  assert (Keep : forall v : State, (v = TIMEDOUT -> False) ->
+    (evs t = evs t /\ (forall y, restarts (getrec t y) = restarts (getrec t y)) /\
+     (forall y, In y (failed t) -> In y (failed t)) /\ cancelled t = cancelled t /\
+     (forall y, In y (completed t) -> In y (completed t)) /\
+     (forall y, In y (ready t) -> In y (ready t) \/ (y = x /\ Some v = Some HWFAILURE)) /\
+     (forall y, y <> x -> In y (inprog t) -> In y (inprog t)) /\
+     (forall y, In y cl -> y = x \/ In y cl) /\ (forall y, In y ca -> In y ca) /\
+     (Some v = Some TIMEDOUT -> In x (failed t) \/ In x cl))).
+  { intros v Hv. splits; auto. intros H. inversion H. tauto. }
+  destruct o as [[]|]; cbn [oeqb state_eqb] in E;
+    try (inversion E; subst t' cl' ca'; left; apply Keep; discriminate).
+  - (* RUNNING *)
+    inversion E; subst t' cl' ca'; clear E. left. splits; auto; try discriminate.
+    intros y. apply restarts_set_status.
+  - (* FINISHED *)
+    inversion E; subst t' cl' ca'; clear E. left.
+    splits; auto; try discriminate; unfold inprog_remove, completed_add; sp.
+    + intros y. apply (restarts_set_status x y FINISHED t).
+    + intros y. rewrite In_sadd. tauto.
+    + intros y Hn. rewrite In_srem. tauto.
+  - (* FAILED *)
+    inversion E; subst t' cl' ca'; clear E. left.
+    splits; auto; try discriminate; unfold inprog_remove; sp.
+    + intros y. apply (restarts_set_status x y FAILED).
+    + intros y Hn. unfold rec_set_status. sp. rewrite In_srem. tauto.
+    + intros y Hy. right. apply In_set_union. tauto.
+  - (* HWFAILURE *)
+    inversion E; subst t' cl' ca'; clear E. left.
+    splits; auto; try discriminate; unfold ready_push, inprog_remove; sp.
+    + intros y. rewrite in_app_iff. cbn. intuition.
+    + intros y Hn. rewrite In_srem. tauto.
+  - (* TIMEDOUT *)
+    destruct (has_restart (attr g x) && negb (canceled t)) eqn:HR.
+    + apply andb_true_iff in HR. destruct HR as [HR1 HR2]. apply negb_true_iff in HR2.
+      unfold mark_restart_gen in E.
+      assert (Er : restarts (getrec (rec_set_status x TIMEDOUT t) x) = restarts (getrec t x)) by apply restarts_set_status.
+      rewrite Er in E.
+      destruct ((rlimit (attr g x) =? 0) || (restarts (getrec t x) <? rlimit (attr g x))) eqn:B.
+      * inversion E; subst t' cl' ca'; clear E. right. unfold restart_branch. splits; auto.
+      * inversion E; subst t' cl' ca'; clear E. left.
+        splits; auto; unfold inprog_remove; sp.
+        -- intros y. apply (restarts_set_status x y TIMEDOUT).
+        -- intros y Hn. unfold rec_set_status. sp. rewrite In_srem. tauto.
+        -- intros y Hy. right. apply In_set_union. tauto.
+        -- intros _. right. apply In_set_union. left. apply bfs_subtree_root.
+    + inversion E; subst t' cl' ca'; clear E. left.
+      splits; auto; unfold failed_add, inprog_remove; sp.
+      * intros y. apply (restarts_set_status x y TIMEDOUT).
+      * intros y. rewrite In_sadd. tauto.
+      * intros y Hn. unfold rec_set_status. sp. rewrite In_srem. tauto.
+      * intros y Hy. destruct (Nat.eq_dec y x); auto. right. rewrite In_srem, In_set_union. tauto.
+      * intros _. left. apply In_sadd. auto.
+  - (* UNKNOWN *)
+    inversion E; subst t' cl' ca'; clear E. left.
+    splits; auto; try discriminate; unfold inprog_remove; sp.
+    + intros y. apply (restarts_set_status x y UNKNOWN).
+    + intros y Hn. unfold rec_set_status. sp. rewrite In_srem. tauto.
+    + intros y Hy. right. apply In_set_union. tauto.
+  - (* CANCELLED *)
+    inversion E; subst t' cl' ca'; clear E. left.
+    splits; auto; try discriminate; unfold inprog_remove; sp.
+    + intros y. apply (restarts_set_status x y CANCELLED).
+    + intros y Hn. unfold rec_set_status. sp. rewrite In_srem. tauto.
+    + intros y Hy. apply In_set_union. tauto.
+  - (* no report *)
+    inversion E; subst t' cl' ca'; clear E. left. splits; auto; discriminate.
+Qed.
+
+(** no step has been launched yet in this poll *)
+Definition no_main (t : st) : Prop := forall y sc res, ~ In (ESubmit y Main sc res) (evs t).
+
+Lemma hr_no_main c g t cl ca x o t' cl' ca' : x < length (recs t) ->
+  handle_report_gen c g (t, cl, ca) (x, o) = (t', cl', ca') -> no_main t -> no_main t'.
+Proof.
+  intros Hl E N. destruct (hr_frame c g t cl ca x o t' cl' ca' Hl E) as [(Ev & _)|(_ & _ & _ & Et)].
+  - unfold no_main. rewrite Ev. exact N.
+  - destruct (execute_record_evs c g x true (rec_inc_restarts x (rec_set_status x TIMEDOUT t))) as (new & V1 & V2 & _).
+    rewrite <- Et in V1. intros y sc res H. rewrite V1 in H. apply in_app_iff in H. destruct H as [H|H].
+    + destruct (V2 _ H) as [A|[r A]]; discriminate.
+    + exact (N y sc res H).
+Qed.
+
+(** the cancel request of this poll, if any, has been processed *)
+Definition creq (p : pin) (t : st) : Prop := cancel_req p = true -> canceled t = true.
+
 Inductive pstep (c : cfg) (g : graph) (p : pin) : conf -> conf -> Prop :=
 | ps_cancel t : cancel_req p = true -> Inv g t ->
     pstep c g p (t, [], [], []) (cancel_study_gen t, [], [], [])
@@ -35,7 +194,7 @@ Inductive pstep (c : cfg) (g : graph) (p : pin) : conf -> conf -> Prop :=
     pstep c g p (t, [], [], []) (emit (ECheck (map (lastjob t) (inprog t))) t, [], [], [])
 | ps_report t cl ca done x o t' cl' ca' :
     dry c = false -> qcode p = QOK -> In (x, o) (reports p) -> ~ In x (map fst done) -> incl done (reports p) ->
-    Inv g t -> Pend g t cl ca -> In x (inprog t) ->
+    Inv g t -> Pend g t cl ca -> In x (inprog t) -> creq p t -> no_main t ->
     handle_report_gen c g (t, cl, ca) (x, o) = (t', cl', ca') ->
     pstep c g p (t, cl, ca, done) (t', cl', ca', done ++ [(x, o)])
 | ps_sweep_f t a cl ca done : Inv g t -> Pend g t (a :: cl) ca ->
@@ -44,7 +203,7 @@ Inductive pstep (c : cfg) (g : graph) (p : pin) : conf -> conf -> Prop :=
     pstep c g p (t, [], a :: ca, done) (rec_set_status a CANCELLED (cancelled_add a t), [], ca, done)
 | ps_stage t x done : x < length g -> Inv g t ->
     pstep c g p (t, [], [], done) (stage_node_gen g t x, [], [], done)
-| ps_launch t done : Inv g t ->
+| ps_launch t done : Inv g t -> creq p t ->
     pstep c g p (t, [], [], done) (launch_body_gen c g t, [], [], done).
 
 Inductive psteps (c : cfg) (g : graph) (p : pin) : conf -> conf -> Prop :=
@@ -62,6 +221,25 @@ Lemma psteps_ind_inv c g p (J : conf -> Prop) :
   (forall a b, pstep c g p a b -> J a -> J b) -> forall a b, psteps c g p a b -> J a -> J b.
 Proof. intros H a b R. induction R; eauto. Qed.
 
+Lemma hr_canceled c g t cl ca x o t' cl' ca' :
+  handle_report_gen c g (t, cl, ca) (x, o) = (t', cl', ca') -> canceled t' = canceled t.
+Proof.
+  unfold handle_report_gen. destruct o as [[]|]; cbn [oeqb state_eqb]; intros E;
+    try (inversion E; subst; reflexivity).
+  destruct (has_restart (attr g x) && negb (canceled t)); [|inversion E; subst; reflexivity].
+  unfold mark_restart_gen in E.
+  destruct ((rlimit (attr g x) =? 0) || (restarts (getrec (rec_set_status x TIMEDOUT t) x) <? rlimit (attr g x)));
+    inversion E; subst; [|reflexivity].
+  rewrite (er_canceled _ _ _ _ (execute_record_sets c g x true _)). reflexivity.
+Qed.
+
+Lemma launch_body_canceled c g t : canceled (launch_body_gen c g t) = canceled t.
+Proof.
+  unfold launch_body_gen. destruct (ready t) as [|x rest]; auto.
+  change (canceled (set_ready t rest)) with (canceled t). destruct (canceled t) eqn:E; [exact E|].
+  rewrite (er_canceled _ _ _ _ (execute_record_sets c g x false _)). exact E.
+Qed.
+
 Section Reach.
 Variables (c : cfg) (g : graph) (p : pin).
 Hypothesis W : WF g.
@@ -69,11 +247,12 @@ Hypothesis W : WF g.
 Lemma reach_fold reps : forall done s cl ca,
   dry c = false -> qcode p = QOK ->
   Inv g s -> Pend g s cl ca -> NoDup (map fst (done ++ reps)) -> incl (done ++ reps) (reports p) ->
-  (forall x o, In (x, o) reps -> In x (inprog s)) ->
+  (forall x o, In (x, o) reps -> In x (inprog s)) -> creq p s -> no_main s ->
   let '(s', cl', ca') := fold_left (handle_report_gen c g) reps (s, cl, ca) in
-  psteps c g p (s, cl, ca, done) (s', cl', ca', done ++ reps) /\ Inv g s' /\ Pend g s' cl' ca'.
+  psteps c g p (s, cl, ca, done) (s', cl', ca', done ++ reps) /\ Inv g s' /\ Pend g s' cl' ca' /\
+  canceled s' = canceled s.
 Proof.
-  induction reps as [|[x o] reps IH]; intros done s cl ca D Q I P Hn Hi Hin; cbn [fold_left].
+  induction reps as [|[x o] reps IH]; intros done s cl ca D Q I P Hn Hi Hin Cr Nm; cbn [fold_left].
   - rewrite app_nil_r. splits; auto. constructor.
   - assert (Hx : In x (inprog s)) by (eapply Hin; left; reflexivity).
     pose proof (Inv_handle_report c g s cl ca x o W I P Hx D) as H.
@@ -92,9 +271,13 @@ Proof.
     { intros y o' Hy. apply B1.
       - intros ->. apply (proj2 Hnx). apply in_map_iff. exists (x, o'). auto.
       - eapply Hin. right. exact Hy. }
-    specialize (IH Hin').
+    pose proof (hr_canceled _ _ _ _ _ _ _ _ _ _ E) as Ec.
+    assert (Cr1 : creq p s1) by (unfold creq; rewrite Ec; exact Cr).
+    assert (Nm1 : no_main s1).
+    { eapply hr_no_main; eauto. rewrite (i_len_recs g s I). apply (i_bound g s I). auto. }
+    specialize (IH Hin' Cr1 Nm1).
     destruct (fold_left (handle_report_gen c g) reps (s1, cl1, ca1)) as [[s' cl'] ca'].
-    destruct IH as (R & I' & P'). splits; auto.
+    destruct IH as (R & I' & P' & Ec'). splits; auto; [|congruence].
     eapply psteps_trans; [apply psteps_one; exact St|exact R].
 Qed.
 
@@ -141,14 +324,15 @@ Proof.
     split; auto. refine (psteps_trans _ _ _ _ _ _ (psteps_one _ _ _ _ _ (ps_stage c g p t a done Ha I)) R).
 Qed.
 
-Lemma reach_launch n : forall t done, Inv g t ->
+Lemma reach_launch n : forall t done, Inv g t -> creq p t ->
   psteps c g p (t, [], [], done) (Nat.iter n (launch_body_gen c g) t, [], [], done) /\
-  Inv g (Nat.iter n (launch_body_gen c g) t).
+  Inv g (Nat.iter n (launch_body_gen c g) t) /\ canceled (Nat.iter n (launch_body_gen c g) t) = canceled t.
 Proof.
-  induction n as [|n IH]; intros t done I; cbn [Nat.iter nat_rect].
-  - split; auto. constructor.
-  - destruct (IH t done I) as [R I']. split; [|apply Inv_launch_body; auto].
-    econstructor; [exact R|]. apply ps_launch. exact I'.
+  induction n as [|n IH]; intros t done I Cr; cbn [Nat.iter nat_rect].
+  - splits; auto. constructor.
+  - destruct (IH t done I Cr) as (R & I' & Ec). splits; [|apply Inv_launch_body; auto|].
+    + econstructor; [exact R|]. apply ps_launch; [exact I'|]. unfold creq. unfold Nat.iter in Ec. rewrite Ec. exact Cr.
+    + rewrite launch_body_canceled. exact Ec.
 Qed.
 
 (** reports dispatched by a poll *)
@@ -178,34 +362,46 @@ Proof.
     split; [|apply Inv_emit; auto]. econstructor; [exact R1|]. apply ps_check; auto. }
   destruct R2 as [R2 I2].
   assert (E2 : inprog s2 = inprog s) by (subst s2; destruct (negb (dry c)); exact E1).
+  assert (Cr2 : creq p s2).
+  { intros Cq. subst s2 s1. rewrite Cq. destruct (negb (dry c)); reflexivity. }
+  assert (CrS : forall s3, creq p s3 -> creq p (fold_left (stage_node_gen g) (seq 0 (length g)) s3)).
+  { intros s3 Cr Cq. destruct (stage_fold_frame g (seq 0 (length g)) s3) as (_ & _ & _ & _ & _ & F6 & _).
+    rewrite F6. auto. }
   destruct (dry c) eqn:D; cbn [negb andb].
   - (* dry run: no query, no reports *)
     rewrite andb_false_r. cbn [qcode_eqb fst].
     unfold dispatch_gen. cbn [fold_left]. rewrite mfl_nil, mcl_nil.
     destruct (reach_stage (seq 0 (length g)) s2 [] I2 Hseq) as [R3 I3].
     set (s3 := fold_left (stage_node_gen g) (seq 0 (length g)) s2) in *.
-    destruct (reach_launch (available_gen c s3) s3 [] I3) as [R4 I4].
+    destruct (reach_launch (available_gen c s3) s3 [] I3 (CrS s2 Cr2)) as [R4 I4].
     eapply psteps_trans; [exact R2|]. eapply psteps_trans; [exact R3|exact R4].
   - rewrite andb_true_r. destruct (qcode p) eqn:Q; cbn [qcode_eqb fst].
     + (* OK *)
       unfold dispatch_gen.
       assert (P0 : Pend g s2 [] []) by (intros y [[]|[]]).
       pose proof (reach_fold (reports p) [] s2 [] [] D Q I2 P0 Vn (incl_refl _)) as F.
-      rewrite E2 in F. specialize (F Vi). cbn [app] in F.
+      assert (Nm2 : no_main s2).
+      { intros y sc res H. subst s2 s1 s0. cbn [negb] in H.
+        destruct (cancel_req p); cbn in H; intuition discriminate. }
+      rewrite E2 in F. specialize (F Vi Cr2 Nm2). cbn [app] in F.
       destruct (fold_left (handle_report_gen c g) (reports p) (s2, [], [])) as [[s' cl'] ca'].
-      destruct F as (RF & IF & PF).
+      destruct F as (RF & IF & PF & EcF).
       destruct (reach_sweep_f cl' s' ca' (reports p) IF PF) as (RS & IS & PS).
       destruct (reach_sweep_c ca' (mark_failed_list cl' s') (reports p) IS PS) as (RC & IC).
       set (s3 := mark_cancelled_list ca' (mark_failed_list cl' s')) in *.
       destruct (reach_stage (seq 0 (length g)) s3 (reports p) IC Hseq) as [R3 I3].
       set (s4 := fold_left (stage_node_gen g) (seq 0 (length g)) s3) in *.
-      destruct (reach_launch (available_gen c s4) s4 (reports p) I3) as [R4 I4].
+      assert (Cr3 : creq p s3).
+      { intros Cq. subst s3. destruct (mfl_frame cl' s') as (_ & _ & _ & _ & _ & M6 & _).
+        destruct (mcl_frame ca' (mark_failed_list cl' s')) as (_ & _ & _ & _ & _ & N6 & _).
+        rewrite N6, M6, EcF. auto. }
+      destruct (reach_launch (available_gen c s4) s4 (reports p) I3 (CrS s3 Cr3)) as [R4 I4].
       eapply psteps_trans; [exact R2|]. eapply psteps_trans; [exact RF|]. eapply psteps_trans; [exact RS|].
       eapply psteps_trans; [exact RC|]. eapply psteps_trans; [exact R3|exact R4].
     + (* NOJOBS *)
       destruct (reach_stage (seq 0 (length g)) s2 [] I2 Hseq) as [R3 I3].
       set (s3 := fold_left (stage_node_gen g) (seq 0 (length g)) s2) in *.
-      destruct (reach_launch (available_gen c s3) s3 [] I3) as [R4 I4].
+      destruct (reach_launch (available_gen c s3) s3 [] I3 (CrS s2 Cr2)) as [R4 I4].
       eapply psteps_trans; [exact R2|]. eapply psteps_trans; [exact R3|exact R4].
     + (* ERROR *)
       exact R2.
